@@ -74,6 +74,31 @@ func (r *refUpdater) updateOneTag(tag *gitobj.Tag, toObj []byte) ([]byte, error)
 	return newTag, nil
 }
 
+// rewriteTagObject writes a copy of the given annotated tag that points at the
+// rewritten form of its target, which is a commit or another annotated tag. It
+// returns nil when the target was not rewritten.
+func (r *refUpdater) rewriteTagObject(tag *gitobj.Tag) ([]byte, error) {
+	var to []byte
+	switch tag.ObjectType {
+	case gitobj.CommitObjectType:
+		var ok bool
+		if to, ok = r.cacheFn(tag.Object); !ok {
+			return nil, nil
+		}
+	case gitobj.TagObjectType:
+		inner, err := r.db.Tag(tag.Object)
+		if err != nil {
+			return nil, err
+		}
+		if to, err = r.rewriteTagObject(inner); to == nil {
+			return nil, err
+		}
+	default:
+		return nil, nil
+	}
+	return r.updateOneTag(tag, to)
+}
+
 func (r *refUpdater) updateOneRef(list *tasklog.ListTask, maxNameLen int, seen map[string]struct{}, ref *git.Ref) error {
 	sha1, err := hex.DecodeString(ref.Sha)
 	if err != nil {
@@ -93,25 +118,35 @@ func (r *refUpdater) updateOneRef(list *tasklog.ListTask, maxNameLen int, seen m
 		if tag != nil && tag.ObjectType == gitobj.TagObjectType {
 			innerTag, _ := r.db.Tag(tag.Object)
 			name := fmt.Sprintf("refs/tags/%s", innerTag.Name)
-			if _, ok := seen[name]; !ok {
-				old, err := git.ResolveRef(name)
+			var updatedSha []byte
+			if _, err := git.ResolveRef(name); err != nil {
+				// The inner tag has no ref of its own name (any
+				// more): rewrite the tag object itself.
+				updatedSha, err = r.rewriteTagObject(innerTag)
+				if updatedSha == nil {
+					return err
+				}
+			} else {
+				if _, ok := seen[name]; !ok {
+					old, err := git.ResolveRef(name)
+					if err != nil {
+						return err
+					}
+
+					err = r.updateOneRef(list, maxNameLen, seen, old)
+					if err != nil {
+						return err
+					}
+				}
+
+				updated, err := git.ResolveRef(name)
 				if err != nil {
 					return err
 				}
-
-				err = r.updateOneRef(list, maxNameLen, seen, old)
+				updatedSha, err = hex.DecodeString(updated.Sha)
 				if err != nil {
-					return err
+					return errors.Wrap(err, tr.Tr.Get("could not decode: %q", ref.Sha))
 				}
-			}
-
-			updated, err := git.ResolveRef(name)
-			if err != nil {
-				return err
-			}
-			updatedSha, err := hex.DecodeString(updated.Sha)
-			if err != nil {
-				return errors.Wrap(err, tr.Tr.Get("could not decode: %q", ref.Sha))
 			}
 
 			newTag, err := r.updateOneTag(tag, updatedSha)
